@@ -355,6 +355,9 @@ func decideC09(c c09Case) ev.Verdict {
 		v.Labels = append(v.Labels, "history:immediate-repeat")
 	}
 	v.NonTrivial = len(c.Ops) >= 3 && (sawFailThenPass || sawErrThenOK || sawRepeat)
+	if msg := canaryChanged(); msg != "" {
+		return ev.Violation("c09-canary-changed", "after this history: %s", msg)
+	}
 	return v
 }
 
